@@ -40,6 +40,8 @@ def call_method(I_, recv, name, args, kws, st, ctx, k, node):
     return model_hash(I_, recv, st, ctx, k, node)
   if isinstance(recv, Ref):
     o = st.obj(recv)
+    if o.kind == "slist":
+      return slist_method(I_, recv, o, name, args, kws, st, ctx, k, node)
     if o.kind == "list":
       return list_method(I_, recv, o, name, args, kws, st, ctx, k, node)
     if o.kind == "dict":
@@ -137,6 +139,58 @@ def list_extend(I_, ref, other, st, ctx, k, node):
     st2.obj(ref).data.extend(list(items))
     return k(st2, None)
   return iter_values(I_, other, st, ctx, got, node)
+
+
+def slist_method(I_, ref, o, name, args, kws, st, ctx, k, node):
+  """symbolic-length list: element attributes are arrays; insert/append/pop shift them"""
+  where = I_.where(ctx, node)
+  n = zint(o.data["len"])
+  if name in ("insert", "append"):
+    if name == "append":
+      pos, item = n, args[0]
+    else:
+      pos, item = args[0], args[1]
+      if not is_intlike(pos):
+        raise Unsupported("list.insert position")
+      zp = zint(pos)
+      # python clamps the position into [0, len] (negative positions count from the end)
+      zp = z3.If(zp < 0, z3.If(zp + n < 0, 0, zp + n), z3.If(zp > n, n, zp))
+      pos = concretize(zp)
+    attrs = o.data["attrs"]
+    names = list(attrs.keys())
+    def step(j_, st2, vals):
+      if j_ >= len(names):
+        o2 = st2.obj(ref)
+        zp2 = zint(pos)
+        q = z3.Int(fresh_name("q"))
+        o2.data["attrs"] = dict(o2.data["attrs"])    # states share nested dicts: never mutate in place
+        for nm, v in zip(names, vals):
+          old = o2.data["attrs"][nm]
+          if v is None:
+            v = z3.Const(fresh_name("newelem_" + nm.replace(".", "_").replace("()", "")), old.sort().range())
+          elif old.sort().range() == z3.BoolSort():
+            v = zbool(v) if not is_sym(v) else v
+          else:
+            v = zint(v)
+          o2.data["attrs"][nm] = z3.Lambda([q], z3.If(q < zp2, z3.Select(old, q),
+                                                    z3.If(q == zp2, v, z3.Select(old, q - 1))))
+        o2.data["len"] = concretize(zint(o2.data["len"]) + 1)
+        o2.data["ghost_inserted_at"] = pos
+        return k(st2, None)
+      nm = names[j_]
+      if nm.endswith("()"):
+        return step(j_ + 1, st2, vals + [None])
+      # evaluate the tracked attribute path on the inserted object
+      parts = nm.split(".")
+      def walk(pi, st3, cur):
+        if pi >= len(parts):
+          return step(j_ + 1, st3, vals + [cur])
+        return I_.getattr_value(cur, parts[pi], st3, ctx, lambda st4, r: walk(pi + 1, st4, r), node)
+      return walk(0, st2, item)
+    return step(0, st, [])
+  if name == "__len__":
+    return k(st, o.data["len"])
+  raise Unsupported("method %s of a symbolic-length list" % name)
 
 
 def list_method(I_, ref, o, name, args, kws, st, ctx, k, node):
